@@ -292,7 +292,7 @@ pub fn search_opt(ctx: &Ctx, mode: Mode, name: &str, init: Vec<Bm>, max_layers: 
   while layers_done < max_layers {
     let hi = tab.bms.len();
     if frontier_lo == hi {
-      fixpoint = true;
+      fixpoint = layers_done > 0;
       break;
     }
     // jobs: one per "new" left or right operand index
@@ -339,8 +339,19 @@ pub fn search_opt(ctx: &Ctx, mode: Mode, name: &str, init: Vec<Bm>, max_layers: 
           }
         }
       }
-      // hand the fresh states back through the samples channel of the part (kept separately)
-      p.payload.extend(fresh.iter().map(|s| s.to_json()));
+      // hand the fresh states back (they are the operands of the next layer); in the last layer
+      // they are only counted, through fingerprints
+      if layers_done + 1 < max_layers {
+        p.payload.extend(fresh.iter().map(|s| s.to_json()));
+      } else {
+        for s in &fresh {
+          let mut words: Vec<u64> = vec![s.depth_max as u64];
+          for e in &s.entries {
+            words.push(((e.0 as u64) << 62) ^ (e.1 << 1) ^ e.2 as u64);
+          }
+          p.fps.insert(hash64(&words));
+        }
+      }
       p
     });
     // merge: collect fresh states in job order
@@ -359,6 +370,10 @@ pub fn search_opt(ctx: &Ctx, mode: Mode, name: &str, init: Vec<Bm>, max_layers: 
         added += 1;
       }
     }
+    if layers_done + 1 >= max_layers {
+      added = total.fps.len() as u64;
+      total.fps.clear();
+    }
     layers_done += 1;
     total.stratum(&format!("{}:layer{}", name, layers_done), added, 0);
     layer_info.push(json!({"layer": layers_done, "operand_states": hi, "transitions": trans, "new_states": added, "capped": capped}));
@@ -366,8 +381,10 @@ pub fn search_opt(ctx: &Ctx, mode: Mode, name: &str, init: Vec<Bm>, max_layers: 
       break;
     }
   }
-  if frontier_lo == tab.bms.len() {
-    fixpoint = true;
+  if let Some(last) = layer_info.last() {
+    if last["new_states"] == json!(0) && last["capped"] == json!(false) {
+      fixpoint = true;
+    }
   }
   // a few samples
   for k in [0usize, n0 / 2, tab.bms.len() - 1] {
